@@ -1,8 +1,439 @@
 /-
-  C03 helper lemmas for the pull model.
+  C03 helper lemmas for the pull model (`Model/Pull.lean`).
 -/
 import OllamaVerif.Model.Pull
 
 namespace OllamaVerif.Pull
+
+theorem upd_same {β : Type} (f : Digest → β) (k : Digest) (v : β) : upd f k v k = v := by
+  simp [upd]
+
+theorem upd_other {β : Type} (f : Digest → β) (k d : Digest) (v : β) (h : d ≠ k) :
+    upd f k v d = f d := by
+  simp [upd, h]
+
+theorem getSkip_setSkip (d k : Digest) (v : Bool) (sk : List (Digest × Bool)) :
+    getSkip d (setSkip k v sk) = if d = k then v else getSkip d sk := by
+  induction sk with
+  | nil =>
+    by_cases h : d = k
+    · subst h; simp [setSkip, getSkip]
+    · have h' : ¬ k = d := fun e => h e.symm
+      simp [setSkip, getSkip, h, h']
+  | cons hd t ih =>
+    obtain ⟨k', w⟩ := hd
+    by_cases hk : k' = k
+    · subst hk
+      by_cases h : d = k'
+      · subst h; simp [setSkip, getSkip]
+      · have h' : ¬ k' = d := fun e => h e.symm
+        simp [setSkip, getSkip, h, h']
+    · by_cases h : d = k
+      · subst h
+        have : ¬ k' = d := hk
+        simp [setSkip, getSkip, hk, ih]
+      · by_cases h2 : k' = d
+        · subst h2; simp [setSkip, getSkip, hk]
+        · simp [setSkip, getSkip, hk, h, h2, ih]
+
+theorem lookupM_insertM (n : Name) (v : MFile) (l : List (Name × MFile)) :
+    lookupM n (insertM n v l) = some v := by
+  induction l with
+  | nil => simp [insertM, lookupM]
+  | cons hd t ih =>
+    obtain ⟨k, w⟩ := hd
+    by_cases h : k = n
+    · simp [insertM, lookupM, h]
+    · simp [insertM, lookupM, h, ih]
+
+theorem removeBlobs_other (used : List DRef) (ks : List DRef) (b : Digest → Option Bytes) (d : Digest)
+    (h : DRef.ok d ∉ ks) : removeBlobs used ks b d = b d := by
+  induction ks generalizing b with
+  | nil => rfl
+  | cons k ks ih =>
+    have hk : DRef.ok d ≠ k := fun e => h (by simp [e])
+    have ht : DRef.ok d ∉ ks := fun e => h (by simp [e])
+    cases k with
+    | empty => simpa [removeBlobs] using ih b ht
+    | bad => simpa [removeBlobs] using ih b ht
+    | ok x =>
+      have hx : d ≠ x := fun e => hk (by rw [e])
+      simp only [removeBlobs]
+      split
+      · exact ih b ht
+      · rw [ih _ ht, upd_other _ _ _ _ hx]
+
+/-! ## one iteration of the download loop -/
+
+/-- `Step s s1 d`: `s1` is the state after the loop body handled a layer with digest `d` successfully -/
+def Step (s s1 : DlState) (d : Digest) : Prop :=
+  (∃ c0, s.st.blobs d = some c0 ∧ s1 = { s with skip := setSkip d true s.skip }) ∨
+  (s.st.blobs d = none ∧ ∃ c pa net', s1 =
+    { st := { s.st with blobs := upd s.st.blobs d (some c), partials := upd s.st.partials d pa },
+      net := net', skip := setSkip d false s.skip, renamed := s.renamed ++ [d] })
+
+/-- what the loop does with its first layer: it either stops there (not `ok`; only the partial
+    state and the counters change) or takes a `Step` and continues -/
+theorem dlLoop_cons {cfg : Cfg} {reg : Registry} {sc : Scripts} {l : Layer} {ls : List Layer}
+    {s s' : DlState} {o : Outcome} (h : dlLoop cfg reg sc (l :: ls) s = (o, s')) :
+    (o ≠ .ok () ∧ s'.st.blobs = s.st.blobs ∧ s'.st.manifests = s.st.manifests ∧
+      s'.skip = s.skip ∧ s'.renamed = s.renamed) ∨
+    (∃ d s1, l.digest = .ok d ∧ Step s s1 d ∧ dlLoop cfg reg sc ls s1 = (o, s')) := by
+  unfold dlLoop at h
+  split at h
+  · left; cases h; simp
+  · left; cases h; simp
+  · rename_i d hd
+    split at h
+    · rename_i c0 hc0
+      right; exact ⟨d, _, hd, Or.inl ⟨c0, hc0, rfl⟩, h⟩
+    · rename_i hnone
+      split at h
+      · rename_i c pa net' _
+        right; exact ⟨d, _, hd, Or.inr ⟨hnone, c, pa, net', rfl⟩, h⟩
+      · left; cases h; simp
+      · left; cases h; simp
+
+theorem Step.manifests {s s1 : DlState} {d : Digest} (h : Step s s1 d) :
+    s1.st.manifests = s.st.manifests := by
+  rcases h with ⟨_, _, rfl⟩ | ⟨_, _, _, _, rfl⟩ <;> rfl
+
+theorem Step.other {s s1 : DlState} {d x : Digest} (h : Step s s1 d) (hx : x ≠ d) :
+    s1.st.blobs x = s.st.blobs x ∧ getSkip x s1.skip = getSkip x s.skip := by
+  rcases h with ⟨_, _, rfl⟩ | ⟨_, _, _, _, rfl⟩
+  · simp [getSkip_setSkip, hx]
+  · simp [getSkip_setSkip, hx, upd_other]
+
+theorem Step.keeps {s s1 : DlState} {d x : Digest} {c : Bytes} (h : Step s s1 d)
+    (hc : s.st.blobs x = some c) : s1.st.blobs x = some c := by
+  by_cases hx : x = d
+  · subst hx
+    rcases h with ⟨_, _, rfl⟩ | ⟨hn, _⟩
+    · exact hc
+    · rw [hn] at hc; cases hc
+  · rw [(h.other hx).1]; exact hc
+
+theorem Step.present {s s1 : DlState} {d : Digest} (h : Step s s1 d) : ∃ c, s1.st.blobs d = some c := by
+  rcases h with ⟨c0, hc, rfl⟩ | ⟨_, c, _, _, rfl⟩
+  · exact ⟨c0, hc⟩
+  · exact ⟨c, by simp [upd_same]⟩
+
+theorem Step.skip_true_same {s s1 : DlState} {d : Digest} (h : Step s s1 d)
+    (ht : getSkip d s1.skip = true) : s1.st.blobs d = s.st.blobs d := by
+  rcases h with ⟨_, _, rfl⟩ | ⟨_, _, _, _, rfl⟩
+  · rfl
+  · simp [getSkip_setSkip] at ht
+
+theorem Step.skip_or_renamed {s s1 : DlState} {d : Digest} (h : Step s s1 d) :
+    getSkip d s1.skip = true ∨ d ∈ s1.renamed := by
+  rcases h with ⟨_, _, rfl⟩ | ⟨_, _, _, _, rfl⟩
+  · left; simp [getSkip_setSkip]
+  · right; simp
+
+theorem Step.renamed_mono {s s1 : DlState} {d x : Digest} (h : Step s s1 d) (hx : x ∈ s.renamed) :
+    x ∈ s1.renamed := by
+  rcases h with ⟨_, _, rfl⟩ | ⟨_, _, _, _, rfl⟩
+  · exact hx
+  · simp [hx]
+
+theorem Step.changed_renamed {s s1 : DlState} {d : Digest} (h : Step s s1 d) (x : Digest) :
+    s1.st.blobs x = s.st.blobs x ∨ x ∈ s1.renamed := by
+  by_cases hx : x = d
+  · subst hx
+    rcases h with ⟨_, _, rfl⟩ | ⟨_, _, _, _, rfl⟩
+    · left; rfl
+    · right; simp
+  · left; exact (h.other hx).1
+
+theorem Step.hit_skip {s s1 : DlState} {d : Digest} (h : Step s s1 d) {c : Bytes}
+    (hc : s.st.blobs d = some c) : getSkip d s1.skip = true := by
+  rcases h with ⟨_, _, rfl⟩ | ⟨hn, _⟩
+  · simp [getSkip_setSkip]
+  · rw [hn] at hc; cases hc
+
+/-! ## the download loop -/
+
+/-- whatever the outcome: manifests untouched, existing blobs kept, `renamed` grows, and a blob
+    differs from before only if this attempt renamed it into place -/
+theorem dlLoop_preserve {cfg : Cfg} {reg : Registry} {sc : Scripts} (ls : List Layer) :
+    ∀ {s s' : DlState} {o : Outcome}, dlLoop cfg reg sc ls s = (o, s') →
+      s'.st.manifests = s.st.manifests ∧
+      (∀ x c, s.st.blobs x = some c → s'.st.blobs x = some c) ∧
+      (∀ x, x ∈ s.renamed → x ∈ s'.renamed) ∧
+      (∀ x, s'.st.blobs x = s.st.blobs x ∨ x ∈ s'.renamed) := by
+  induction ls with
+  | nil =>
+    intro s s' o h
+    simp only [dlLoop] at h
+    cases h
+    exact ⟨rfl, fun _ _ h => h, fun _ h => h, fun _ => Or.inl rfl⟩
+  | cons l ls ih =>
+    intro s s' o h
+    rcases dlLoop_cons h with ⟨_, hb, hm, _, hr⟩ | ⟨d, s1, _, hstep, hrest⟩
+    · refine ⟨hm, ?_, ?_, ?_⟩
+      · intro x c hx; rw [hb]; exact hx
+      · intro x hx; rw [hr]; exact hx
+      · intro x; left; rw [hb]
+    · obtain ⟨im, ik, ir, ic⟩ := ih hrest
+      refine ⟨im.trans hstep.manifests, ?_, ?_, ?_⟩
+      · intro x c hx; exact ik x c (hstep.keeps hx)
+      · intro x hx; exact ir x (hstep.renamed_mono hx)
+      · intro x
+        rcases ic x with e | r
+        · rcases hstep.changed_renamed x with e1 | r1
+          · left; rw [e, e1]
+          · right; exact ir x r1
+        · right; exact r
+
+/-- a digest that is already stored and already marked (or still to come) ends up marked `skip` -/
+theorem dlLoop_skip_true {cfg : Cfg} {reg : Registry} {sc : Scripts} (ls : List Layer) :
+    ∀ {s s' : DlState} {x : Digest} {c : Bytes}, dlLoop cfg reg sc ls s = (.ok (), s') →
+      s.st.blobs x = some c → ((∃ l ∈ ls, l.digest = .ok x) ∨ getSkip x s.skip = true) →
+      getSkip x s'.skip = true := by
+  induction ls with
+  | nil =>
+    intro s s' x c h _ hor
+    simp only [dlLoop] at h
+    cases h
+    rcases hor with ⟨l, hl, _⟩ | h
+    · cases hl
+    · exact h
+  | cons l ls ih =>
+    intro s s' x c h hc hor
+    rcases dlLoop_cons h with ⟨hne, _⟩ | ⟨d, s1, hd, hstep, hrest⟩
+    · exact absurd rfl hne
+    · have hc1 := hstep.keeps hc
+      by_cases hx : x = d
+      · subst hx
+        exact ih hrest hc1 (Or.inr (hstep.hit_skip hc))
+      · rcases hor with ⟨l', hl', hd'⟩ | ht
+        · rcases List.mem_cons.1 hl' with rfl | hin
+          · rw [hd] at hd'; cases hd'; exact absurd rfl hx
+          · exact ih hrest hc1 (Or.inl ⟨l', hin, hd'⟩)
+        · exact ih hrest hc1 (Or.inr (by rw [(hstep.other hx).2]; exact ht))
+
+/-- on success every layer is addressable and stored, and was either a cache hit or renamed by
+    this attempt -/
+theorem dlLoop_ok_all {cfg : Cfg} {reg : Registry} {sc : Scripts} (ls : List Layer) :
+    ∀ {s s' : DlState}, dlLoop cfg reg sc ls s = (.ok (), s') →
+      ∀ l ∈ ls, ∃ d c, l.digest = .ok d ∧ s'.st.blobs d = some c ∧
+        (getSkip d s'.skip = true ∨ d ∈ s'.renamed) := by
+  induction ls with
+  | nil => intro s s' _ l hl; cases hl
+  | cons l0 ls ih =>
+    intro s s' h l hl
+    rcases dlLoop_cons h with ⟨hne, _⟩ | ⟨d, s1, hd, hstep, hrest⟩
+    · exact absurd rfl hne
+    · rcases List.mem_cons.1 hl with rfl | hin
+      · obtain ⟨c, hc⟩ := hstep.present
+        obtain ⟨_, ik, ir, _⟩ := dlLoop_preserve ls hrest
+        refine ⟨d, c, hd, ik d c hc, ?_⟩
+        rcases hstep.skip_or_renamed with ht | hr
+        · left; exact dlLoop_skip_true ls hrest hc (Or.inr ht)
+        · right; exact ir d hr
+      · exact ih hrest l hin
+
+/-- a digest the loop does not meet keeps its blob and its mark -/
+theorem dlLoop_frame {cfg : Cfg} {reg : Registry} {sc : Scripts} (ls : List Layer) :
+    ∀ {s s' : DlState} {x : Digest}, dlLoop cfg reg sc ls s = (.ok (), s') →
+      (∀ l ∈ ls, l.digest ≠ .ok x) →
+      s'.st.blobs x = s.st.blobs x ∧ getSkip x s'.skip = getSkip x s.skip := by
+  induction ls with
+  | nil =>
+    intro s s' x h _
+    simp only [dlLoop] at h
+    cases h; exact ⟨rfl, rfl⟩
+  | cons l ls ih =>
+    intro s s' x h hno
+    rcases dlLoop_cons h with ⟨hne, _⟩ | ⟨d, s1, hd, hstep, hrest⟩
+    · exact absurd rfl hne
+    · have hx : x ≠ d := by
+        intro e; subst e; exact hno l (by simp) hd
+      obtain ⟨e1, e2⟩ := ih hrest (fun l' hl' => hno l' (by simp [hl']))
+      obtain ⟨f1, f2⟩ := hstep.other hx
+      exact ⟨e1.trans f1, e2.trans f2⟩
+
+/-- without repeated digests, a layer marked `skip` holds the blob that was there before the loop -/
+theorem dlLoop_ok_nodup {cfg : Cfg} {reg : Registry} {sc : Scripts} (ls : List Layer) :
+    ∀ {s s' : DlState}, dlLoop cfg reg sc ls s = (.ok (), s') → (ls.map (·.digest)).Nodup →
+      ∀ l ∈ ls, ∀ d, l.digest = .ok d → getSkip d s'.skip = true → s'.st.blobs d = s.st.blobs d := by
+  induction ls with
+  | nil => intro s s' _ _ l hl; cases hl
+  | cons l0 ls ih =>
+    intro s s' h hnd l hl d hd ht
+    rcases dlLoop_cons h with ⟨hne, _⟩ | ⟨d0, s1, hd0, hstep, hrest⟩
+    · exact absurd rfl hne
+    · simp only [List.map_cons, List.nodup_cons] at hnd
+      obtain ⟨hnotin, hnd'⟩ := hnd
+      rcases List.mem_cons.1 hl with rfl | hin
+      · rw [hd0] at hd; cases hd
+        have hno : ∀ l' ∈ ls, l'.digest ≠ .ok d := by
+          intro l' hl' e
+          exact hnotin (by rw [hd0, ← e]; exact List.mem_map_of_mem hl')
+        obtain ⟨e1, e2⟩ := dlLoop_frame ls hrest hno
+        rw [e1]
+        exact hstep.skip_true_same (by rw [← e2]; exact ht)
+      · have hne : d ≠ d0 := by
+          intro e; subst e
+          exact hnotin (by rw [hd0, ← hd]; exact List.mem_map_of_mem hin)
+        rw [ih hrest hnd' l hin d hd ht]
+        exact (hstep.other hne).1
+
+/-! ## the verify loop -/
+
+theorem verifyLoop_ok {hash : Bytes → Digest} {skip : List (Digest × Bool)} (ls : List Layer) :
+    ∀ {st st2 : Store}, verifyLoop hash skip ls st = (.ok (), st2) →
+      st2 = st ∧ ∀ l ∈ ls, ∀ d, l.digest = .ok d → getSkip d skip = false →
+        ∃ c, st.blobs d = some c ∧ hash c = d := by
+  induction ls with
+  | nil =>
+    intro st st2 h
+    simp only [verifyLoop] at h
+    cases h
+    exact ⟨rfl, fun l hl => by cases hl⟩
+  | cons l ls ih =>
+    intro st st2 h
+    unfold verifyLoop at h
+    split at h
+    · rename_i d hd
+      split at h
+      · rename_i hsk
+        obtain ⟨e, hall⟩ := ih h
+        refine ⟨e, ?_⟩
+        intro l' hl' d' hd' hf
+        rcases List.mem_cons.1 hl' with rfl | hin
+        · rw [hd] at hd'; cases hd'; rw [hsk] at hf; cases hf
+        · exact hall l' hin d' hd' hf
+      · split at h
+        · cases h
+        · rename_i c hc
+          split at h
+          · rename_i hh
+            obtain ⟨e, hall⟩ := ih h
+            refine ⟨e, ?_⟩
+            intro l' hl' d' hd' hf
+            rcases List.mem_cons.1 hl' with rfl | hin
+            · rw [hd] at hd'; cases hd'; exact ⟨c, hc, hh⟩
+            · exact hall l' hin d' hd' hf
+          · cases h
+    · rename_i hnot
+      obtain ⟨e, hall⟩ := ih h
+      refine ⟨e, ?_⟩
+      intro l' hl' d' hd' hf
+      rcases List.mem_cons.1 hl' with rfl | hin
+      · exact absurd hd' (hnot d')
+      · exact hall l' hin d' hd' hf
+
+/-- whatever the outcome, the verify loop only ever removes a blob of a non-skipped layer -/
+theorem verifyLoop_any {hash : Bytes → Digest} {skip : List (Digest × Bool)} (ls : List Layer) :
+    ∀ {st st2 : Store} {o : Outcome}, verifyLoop hash skip ls st = (o, st2) →
+      st2.manifests = st.manifests ∧
+      ∀ x, st2.blobs x = st.blobs x ∨ (getSkip x skip = false ∧ ∃ l ∈ ls, l.digest = .ok x) := by
+  induction ls with
+  | nil =>
+    intro st st2 o h
+    simp only [verifyLoop] at h
+    cases h
+    exact ⟨rfl, fun _ => Or.inl rfl⟩
+  | cons l ls ih =>
+    intro st st2 o h
+    have lift : (st2.manifests = st.manifests ∧
+        ∀ x, st2.blobs x = st.blobs x ∨ (getSkip x skip = false ∧ ∃ l' ∈ ls, l'.digest = .ok x)) →
+        st2.manifests = st.manifests ∧
+        ∀ x, st2.blobs x = st.blobs x ∨ (getSkip x skip = false ∧ ∃ l' ∈ l :: ls, l'.digest = .ok x) := by
+      rintro ⟨hm, hx⟩
+      refine ⟨hm, fun x => ?_⟩
+      rcases hx x with e | ⟨hf, l', hl', hd'⟩
+      · exact Or.inl e
+      · exact Or.inr ⟨hf, l', by simp [hl'], hd'⟩
+    unfold verifyLoop at h
+    split at h
+    · rename_i d hd
+      split at h
+      · exact lift (ih h)
+      · rename_i hsk
+        split at h
+        · cases h; exact ⟨rfl, fun _ => Or.inl rfl⟩
+        · split at h
+          · exact lift (ih h)
+          · cases h
+            refine ⟨rfl, fun x => ?_⟩
+            by_cases hx : x = d
+            · subst hx
+              right
+              exact ⟨by simpa using hsk, l, by simp, hd⟩
+            · left; simp [upd_other _ _ _ _ hx]
+    · exact lift (ih h)
+
+/-! ## the shape of a pull -/
+
+/-- the blob map after pruning -/
+def oldRefs (name : Name) (st : Store) : List DRef :=
+  match lookupM name st.manifests with
+  | some (.readable om) => (om.all.map (·.digest))
+  | _ => []
+
+def prunedBlobs (cfg : Cfg) (name : Name) (m : Manifest) (st st2 : Store) : Digest → Option Bytes :=
+  let deleteMap0 : List DRef := oldRefs name st
+  let mans := insertM name (.readable m) st2.manifests
+  let deleteMap := deleteMap0.filter fun k => !(m.all.map (·.digest)).contains k && k != m.config.digest
+  if cfg.noPrune || deleteMap.isEmpty then st2.blobs
+  else removeBlobs (usedRefs mans) deleteMap st2.blobs
+
+/-- pruning never removes a layer of the manifest that was just installed -/
+theorem prunedBlobs_keep (cfg : Cfg) (name : Name) (m : Manifest) (st st2 : Store) (d : Digest)
+    (hin : DRef.ok d ∈ m.all.map (·.digest)) : prunedBlobs cfg name m st st2 d = st2.blobs d := by
+  unfold prunedBlobs
+  split
+  · rfl
+  · rw [removeBlobs_other]
+    intro hmem
+    have h2 := (List.mem_filter.1 hmem).2
+    simp at h2
+    obtain ⟨l, hl, hd⟩ := List.mem_map.1 hin
+    exact h2.1 l hl hd
+
+/-- `pull` either fails before touching anything, or stops in the download loop, or runs the
+    verify loop and then (only on success) writes the manifest and prunes -/
+theorem pull_cases {cfg : Cfg} {hash : Bytes → Digest} {name : Name} {reg : Registry} {sc : Scripts}
+    {st st' : Store} {o : Outcome} {log : Log}
+    (h : pull cfg hash name reg sc st = (o, st', log)) :
+    (o ≠ .ok () ∧ st' = st ∧ log.renamed = []) ∨
+    (∃ net0 s, dlLoop cfg reg sc reg.manifest.all ⟨st, net0, [], []⟩ = (o, s) ∧ o ≠ .ok () ∧
+      st' = s.st ∧ log.renamed = s.renamed) ∨
+    (∃ net0 s ov st2, dlLoop cfg reg sc reg.manifest.all ⟨st, net0, [], []⟩ = (.ok (), s) ∧
+      verifyLoop hash s.skip reg.manifest.all s.st = (ov, st2) ∧ log.renamed = s.renamed ∧
+      ((ov ≠ .ok () ∧ o = ov ∧ st' = st2) ∨
+       (ov = .ok () ∧ o = .ok () ∧
+        st'.manifests = insertM name (.readable reg.manifest) st2.manifests ∧
+        st'.blobs = prunedBlobs cfg name reg.manifest st st2))) := by
+  unfold pull at h
+  simp only at h
+  split at h
+  · left; cases h; simp
+  · left; cases h; simp
+  · left; cases h; simp
+  · rename_i net1 n _
+    split at h
+    · rename_i e s hdl
+      right; left
+      cases h
+      exact ⟨_, s, hdl, by simp, rfl, rfl⟩
+    · rename_i p s hdl
+      right; left
+      cases h
+      exact ⟨_, s, hdl, by simp, rfl, rfl⟩
+    · rename_i s hdl
+      right; right
+      split at h
+      · rename_i e st2 hv
+        cases h
+        exact ⟨_, s, _, _, hdl, hv, rfl, Or.inl ⟨by simp, rfl, rfl⟩⟩
+      · rename_i p st2 hv
+        cases h
+        exact ⟨_, s, _, _, hdl, hv, rfl, Or.inl ⟨by simp, rfl, rfl⟩⟩
+      · rename_i st2 hv
+        cases h
+        exact ⟨_, s, _, st2, hdl, hv, rfl, Or.inr ⟨rfl, rfl, rfl, rfl⟩⟩
 
 end OllamaVerif.Pull
